@@ -23,3 +23,4 @@ def run(ck):
     region.r5_11_constructed_rectangle_validated(ck, P, 'C06-R10')   # a rectangle without points stored as a region is not canonical
     region.r7_14_running_extremes_independent(ck, P, 'C06-R11')      # extents enclose the rectangles
     region.r6_12_clamped_boxes_revalidated(ck, P)
+    region.r7_1_overflow_width(ck, P, 'C06-R13')                    # a wrapped coordinate yields malformed (x1 > x2) or misordered rectangles
